@@ -140,6 +140,24 @@ def _gen_file(rng, wellformed):
                 lines[li] = " ".join(f[:5] + [up(x) for x in f[5:]])
             elif len(f) == 4 and f[0] and all(c in "0123456789abcdef" for c in f[0]):
                 lines[li] = " ".join([up(f[0]), up(f[1])] + f[2:])
+    if rng.chance(1, 6):
+        # numbers written with leading zeros up to the parsers' maximum field widths (8 hex digits for u32, 16 for the u64 address of a line record, 10 decimal digits)
+        def pad(tok, width):
+            return tok.rjust(rng.choice([len(tok), len(tok) + 1, width]), "0") if tok and len(tok) <= width and rng.chance(1, 2) else tok
+        for li, l in enumerate(lines):
+            f = l.split(" ")
+            if f[0] in ("FUNC", "PUBLIC") and len(f) > 3:
+                k0 = 2 if f[1] == "m" else 1
+                n = 3 if f[0] == "FUNC" else 2
+                for k in range(k0, min(k0 + n, len(f) - 1)):
+                    f[k] = pad(f[k], 8)
+                lines[li] = " ".join(f)
+            elif f[0] == "INLINE" and len(f) > 5 and all(x.isdigit() for x in f[1:5]):
+                lines[li] = " ".join([f[0]] + [pad(x, 10) for x in f[1:5]] + [pad(x, 8) for x in f[5:]])
+            elif f[0] in ("FILE", "INLINE_ORIGIN") and len(f) > 2 and f[1].isdigit():
+                lines[li] = " ".join([f[0], pad(f[1], 10)] + f[2:])
+            elif len(f) == 4 and f[0] and all(c in "0123456789abcdefABCDEF" for c in f[0]) and f[2].isdigit() and f[3].isdigit():
+                lines[li] = " ".join([pad(f[0], 16), pad(f[1], 8), pad(f[2], 10), pad(f[3], 10)])
     out = ""
     for i, l in enumerate(lines):
         e = eol if not mixed else rng.choice(["\n", "\r\n"])
